@@ -22,6 +22,17 @@ def holds : Pc → Mx → Bool
   | .p83 _ _ _, .cL | .p84 _ _ _, .cL | .p85 _ _ _, .cL | .p86 _ _ _, .cL | .p87 _ _ _, .cL | .p88 _ _ _ _, .cL => true
   | _, _ => false
 
+@[simp] theorem holds_rfExit (th : Th) (n : Nat) (e : Err) (m : Mx) : holds (rfExit th n e).pc m = false :=
+  (obs_helpers (fun pc => holds pc m) false (by cases m <;> rfl) (by cases m <;> rfl) (fun _ => by cases m <;> rfl) (fun _ _ => by cases m <;> rfl) { k := 0, src := fun _ => 0 } th).1 n e
+@[simp] theorem holds_wfsErr (th : Th) (e : Err) (m : Mx) : holds (wfsErr th e).pc m = false :=
+  (obs_helpers (fun pc => holds pc m) false (by cases m <;> rfl) (by cases m <;> rfl) (fun _ => by cases m <;> rfl) (fun _ _ => by cases m <;> rfl) { k := 0, src := fun _ => 0 } th).2.1 e
+@[simp] theorem holds_enterWfs (cfg : Cfg) (th : Th) (n : Nat) (m : Mx) : holds (enterWfs cfg th n).pc m = false :=
+  (obs_helpers (fun pc => holds pc m) false (by cases m <;> rfl) (by cases m <;> rfl) (fun _ => by cases m <;> rfl) (fun _ _ => by cases m <;> rfl) cfg th).2.2.1 n
+@[simp] theorem holds_wcRet (th : Th) (n : Nat) (m : Mx) : holds (wcRet th n).pc m = false :=
+  (obs_helpers (fun pc => holds pc m) false (by cases m <;> rfl) (by cases m <;> rfl) (fun _ => by cases m <;> rfl) (fun _ _ => by cases m <;> rfl) { k := 0, src := fun _ => 0 } th).2.2.2.1 n
+@[simp] theorem holds_closeRet (th : Th) (m : Mx) : holds (closeRet th).pc m = false :=
+  (obs_helpers (fun pc => holds pc m) false (by cases m <;> rfl) (by cases m <;> rfl) (fun _ => by cases m <;> rfl) (fun _ _ => by cases m <;> rfl) { k := 0, src := fun _ => 0 } th).2.2.2.2
+
 @[simp] theorem owner_setOwner (sh : Sh) (m m' : Mx) (o : Option Tid) :
     (sh.setOwner m o).owner m' = if m = m' then o else sh.owner m' := by
   cases m <;> cases m' <;> rfl
@@ -40,10 +51,15 @@ theorem holds_wfsOk (cfg : Cfg) (th : Th) (ppos n : Nat) (m : Mx) : holds (wfsOk
   repeat' split
   all_goals (cases m <;> rfl)
 
+set_option hygiene false in
+/-- rewrite `holds` of the results of the model's helper functions -/
+macro "holds_helpers" : tactic =>
+  `(tactic| (try simp only [holds_rfExit, holds_wfsErr, holds_enterWfs, holds_wcRet, holds_closeRet] at *))
+
 theorem holds_startCall (cfg : Cfg) (th : Th) (call : Call) (m : Mx) : holds (startCall cfg th call).pc m = false := by
-  cases call <;> simp only [startCall, enterWfs, wfsErr, Th.goto, Th.ret]
+  cases call <;> simp only [startCall]
   all_goals (repeat' split)
-  all_goals (cases m <;> rfl)
+  all_goals (first | exact holds_enterWfs _ _ _ _ | (cases m <;> rfl))
 
 /-- effect of one step on the lock state, seen from the stepping thread -/
 theorem lock_step (cfg : Cfg) (sh sh' : Sh) (me : Tid) (th th' : Th)
@@ -89,21 +105,21 @@ theorem lock_step (cfg : Cfg) (sh sh' : Sh) (me : Tid) (th th' : Th)
     rcases hs with ⟨h1, rfl, rfl⟩ | ⟨h1, rfl, rfl⟩
     all_goals (
       refine ⟨fun m => ?_, fun m t ht => Iff.rfl, hcr⟩
-      simp only [enterWfs, wfsErr, Th.goto, Th.ret]
-      repeat' split
-      all_goals (cases m <;> simp_all [holds]))
+      holds_helpers
+      cases m <;> simp_all [holds, Th.ret])
   all_goals tstep_norm
   all_goals tstep_elim
   all_goals (
     refine ⟨?_, ?_, ?_⟩
     · intro m
+      holds_helpers
       first
       | (rw [holds_wfsOk]; cases m <;> simp_all [holds, Sh.unlock, Sh.owner, Sh.setOwner])
-      | (cases m <;> simp_all [holds, Th.goto, Th.ret, Sh.unlock, Sh.bcast, Sh.park, Sh.owner, Sh.setOwner, Sh.setNote, wfsErr, enterWfs])
+      | (cases m <;> simp_all [holds, Th.goto, Th.ret, Sh.unlock, Sh.bcast, Sh.park, Sh.owner, Sh.setOwner, Sh.setNote])
     · intro m t ht
-      cases m <;> simp_all [holds, Th.goto, Th.ret, Sh.unlock, Sh.bcast, Sh.park, Sh.owner, Sh.setOwner, Sh.setNote, wfsErr, enterWfs] <;>
+      cases m <;> simp_all [holds, Th.goto, Th.ret, Sh.unlock, Sh.bcast, Sh.park, Sh.owner, Sh.setOwner, Sh.setNote] <;>
         (try (exact fun h => ht h.symm))
-    · simp_all [holds, Th.goto, Th.ret, Sh.unlock, Sh.bcast, Sh.park, Sh.owner, Sh.setOwner, Sh.setNote, wfsErr, enterWfs])
+    · simp_all [holds, Th.goto, Th.ret, Sh.unlock, Sh.bcast, Sh.park, Sh.owner, Sh.setOwner, Sh.setNote])
 
 /-! ### thread table -/
 
@@ -223,6 +239,27 @@ def pendCd : Pc → Bool
   | .x11 | .x12 | .x13 | .x14 | .x15 => true
   | _ => false
 
+@[simp] theorem pendC_rfExit (th : Th) (n : Nat) (e : Err) : pendC (rfExit th n e).pc = false :=
+  (obs_helpers (fun pc => pendC pc) false (rfl) (rfl) (fun _ => rfl) (fun _ _ => rfl) { k := 0, src := fun _ => 0 } th).1 n e
+@[simp] theorem pendC_wfsErr (th : Th) (e : Err) : pendC (wfsErr th e).pc = false :=
+  (obs_helpers (fun pc => pendC pc) false (rfl) (rfl) (fun _ => rfl) (fun _ _ => rfl) { k := 0, src := fun _ => 0 } th).2.1 e
+@[simp] theorem pendC_enterWfs (cfg : Cfg) (th : Th) (n : Nat) : pendC (enterWfs cfg th n).pc = false :=
+  (obs_helpers (fun pc => pendC pc) false (rfl) (rfl) (fun _ => rfl) (fun _ _ => rfl) cfg th).2.2.1 n
+@[simp] theorem pendC_wcRet (th : Th) (n : Nat) : pendC (wcRet th n).pc = false :=
+  (obs_helpers (fun pc => pendC pc) false (rfl) (rfl) (fun _ => rfl) (fun _ _ => rfl) { k := 0, src := fun _ => 0 } th).2.2.2.1 n
+@[simp] theorem pendC_closeRet (th : Th) : pendC (closeRet th).pc = false :=
+  (obs_helpers (fun pc => pendC pc) false (rfl) (rfl) (fun _ => rfl) (fun _ _ => rfl) { k := 0, src := fun _ => 0 } th).2.2.2.2
+@[simp] theorem pendCd_rfExit (th : Th) (n : Nat) (e : Err) : pendCd (rfExit th n e).pc = false :=
+  (obs_helpers (fun pc => pendCd pc) false (rfl) (rfl) (fun _ => rfl) (fun _ _ => rfl) { k := 0, src := fun _ => 0 } th).1 n e
+@[simp] theorem pendCd_wfsErr (th : Th) (e : Err) : pendCd (wfsErr th e).pc = false :=
+  (obs_helpers (fun pc => pendCd pc) false (rfl) (rfl) (fun _ => rfl) (fun _ _ => rfl) { k := 0, src := fun _ => 0 } th).2.1 e
+@[simp] theorem pendCd_enterWfs (cfg : Cfg) (th : Th) (n : Nat) : pendCd (enterWfs cfg th n).pc = false :=
+  (obs_helpers (fun pc => pendCd pc) false (rfl) (rfl) (fun _ => rfl) (fun _ _ => rfl) cfg th).2.2.1 n
+@[simp] theorem pendCd_wcRet (th : Th) (n : Nat) : pendCd (wcRet th n).pc = false :=
+  (obs_helpers (fun pc => pendCd pc) false (rfl) (rfl) (fun _ => rfl) (fun _ _ => rfl) { k := 0, src := fun _ => 0 } th).2.2.2.1 n
+@[simp] theorem pendCd_closeRet (th : Th) : pendCd (closeRet th).pc = false :=
+  (obs_helpers (fun pc => pendCd pc) false (rfl) (rfl) (fun _ => rfl) (fun _ _ => rfl) { k := 0, src := fun _ => 0 } th).2.2.2.2
+
 /-- the consumer is inside a wait loop: it has found no data (stage 1), has also found the ring
 open (stage 2), or is parked in `ccond.Wait` -/
 def cStage : Pc → Nat
@@ -232,6 +269,27 @@ def cStage : Pc → Nat
 def cParked : Pc → Bool
   | .r77w _ _ | .p86w _ _ _ => true
   | _ => false
+
+@[simp] theorem cStage_rfExit (th : Th) (n : Nat) (e : Err) : cStage (rfExit th n e).pc = 0 :=
+  (obs_helpers (fun pc => cStage pc) 0 (rfl) (rfl) (fun _ => rfl) (fun _ _ => rfl) { k := 0, src := fun _ => 0 } th).1 n e
+@[simp] theorem cStage_wfsErr (th : Th) (e : Err) : cStage (wfsErr th e).pc = 0 :=
+  (obs_helpers (fun pc => cStage pc) 0 (rfl) (rfl) (fun _ => rfl) (fun _ _ => rfl) { k := 0, src := fun _ => 0 } th).2.1 e
+@[simp] theorem cStage_enterWfs (cfg : Cfg) (th : Th) (n : Nat) : cStage (enterWfs cfg th n).pc = 0 :=
+  (obs_helpers (fun pc => cStage pc) 0 (rfl) (rfl) (fun _ => rfl) (fun _ _ => rfl) cfg th).2.2.1 n
+@[simp] theorem cStage_wcRet (th : Th) (n : Nat) : cStage (wcRet th n).pc = 0 :=
+  (obs_helpers (fun pc => cStage pc) 0 (rfl) (rfl) (fun _ => rfl) (fun _ _ => rfl) { k := 0, src := fun _ => 0 } th).2.2.2.1 n
+@[simp] theorem cStage_closeRet (th : Th) : cStage (closeRet th).pc = 0 :=
+  (obs_helpers (fun pc => cStage pc) 0 (rfl) (rfl) (fun _ => rfl) (fun _ _ => rfl) { k := 0, src := fun _ => 0 } th).2.2.2.2
+@[simp] theorem cParked_rfExit (th : Th) (n : Nat) (e : Err) : cParked (rfExit th n e).pc = false :=
+  (obs_helpers (fun pc => cParked pc) false (rfl) (rfl) (fun _ => rfl) (fun _ _ => rfl) { k := 0, src := fun _ => 0 } th).1 n e
+@[simp] theorem cParked_wfsErr (th : Th) (e : Err) : cParked (wfsErr th e).pc = false :=
+  (obs_helpers (fun pc => cParked pc) false (rfl) (rfl) (fun _ => rfl) (fun _ _ => rfl) { k := 0, src := fun _ => 0 } th).2.1 e
+@[simp] theorem cParked_enterWfs (cfg : Cfg) (th : Th) (n : Nat) : cParked (enterWfs cfg th n).pc = false :=
+  (obs_helpers (fun pc => cParked pc) false (rfl) (rfl) (fun _ => rfl) (fun _ _ => rfl) cfg th).2.2.1 n
+@[simp] theorem cParked_wcRet (th : Th) (n : Nat) : cParked (wcRet th n).pc = false :=
+  (obs_helpers (fun pc => cParked pc) false (rfl) (rfl) (fun _ => rfl) (fun _ _ => rfl) { k := 0, src := fun _ => 0 } th).2.2.2.1 n
+@[simp] theorem cParked_closeRet (th : Th) : cParked (closeRet th).pc = false :=
+  (obs_helpers (fun pc => cParked pc) false (rfl) (rfl) (fun _ => rfl) (fun _ _ => rfl) { k := 0, src := fun _ => 0 } th).2.2.2.2
 /-- the wait condition the consumer tested, evaluated on the producer cursor `pseq` -/
 def noDataAt (pseq : Nat) : Pc → Prop
   | .r75 _ cpos | .r77 _ cpos | .r77w _ cpos => pseq ≤ cpos
@@ -313,8 +371,8 @@ theorem eff_step (cfg : Cfg) (sh sh' : Sh) (me : Tid) (th th' : Th)
   all_goals (
     refine ⟨?_, ?_, ?_, ?_, ?_⟩ <;>
     first
-    | (simp [pendC, pendCd, holds, pcRole, Th.goto, Th.ret, Sh.bcast, Sh.park, wfsErr]; done)
-    | (simp [pendC, pendCd, holds, pcRole, Th.goto, Th.ret, Sh.bcast, Sh.park, wfsErr, Sh.note]; done)
+    | (simp [pendC, pendCd, holds, pcRole, Th.goto, Th.ret, Sh.bcast, Sh.park]; done)
+    | (simp [pendC, pendCd, holds, pcRole, Th.goto, Th.ret, Sh.bcast, Sh.park, Sh.note]; done)
     | (simp only [note_unlock]; simp [Sh.note]; done))
 
 /-- a step of another thread `me ≠ c` keeps the consumer's requirement (the stepping thread may
@@ -372,9 +430,9 @@ theorem cNeed_other (cfg : Cfg) (sh sh' : Sh) (me : Tid) (th th' : Th) (cpc : Pc
 @[simp] theorem cNote_setNote_c (sh : Sh) (b : Bool) : (sh.setNote .cL b).cNote = b := rfl
 
 theorem cStage_startCall (cfg : Cfg) (th : Th) (call : Call) : cStage (startCall cfg th call).pc = 0 := by
-  cases call <;> simp only [startCall, enterWfs, wfsErr, Th.goto, Th.ret]
+  cases call <;> simp only [startCall]
   all_goals (repeat' split)
-  all_goals rfl
+  all_goals (first | exact cStage_enterWfs _ _ _ | rfl)
 
 theorem cStage_wfsOk (cfg : Cfg) (th : Th) (ppos n : Nat) : cStage (wfsOk cfg th ppos n).pc = 0 := by
   unfold wfsOk; dsimp only
@@ -416,15 +474,20 @@ theorem cNeed_own (cfg : Cfg) (sh sh' : Sh) (me : Tid) (th th' : Th) (ec ed : Pr
     rcases hs with ⟨h1, rfl, rfl⟩ | ⟨h1, rfl, rfl⟩
     all_goals (
       intro h0
-      simp only [enterWfs, wfsErr, Th.goto, Th.ret] at h0
-      repeat' split at h0
-      all_goals (simp [cStage] at h0))
+      first
+      | (rw [cStage_enterWfs] at h0; cases h0)
+      | (simp [cStage, Th.ret] at h0))
   all_goals tstep_norm
   all_goals tstep_elim
   all_goals (clear hcr)
   all_goals (first
     | (intro h0; rw [cStage_wfsOk] at h0; cases h0)
-    | (intro h0; simp [cStage, Th.goto, Th.ret, wfsErr] at h0; done)
+    | (intro h0; rw [cStage_wfsErr] at h0; cases h0)
+    | (intro h0; rw [cStage_enterWfs] at h0; cases h0)
+    | (intro h0; rw [cStage_wcRet] at h0; cases h0)
+    | (intro h0; rw [cStage_closeRet] at h0; cases h0)
+    | (intro h0; rw [cStage_rfExit] at h0; cases h0)
+    | (intro h0; simp [cStage, Th.goto, Th.ret] at h0; done)
     | (unfold cNeed at h ⊢
        simp_all [cStage, cParked, noDataAt, Th.goto, Th.ret, Sh.park, mustWait]))
 
@@ -439,6 +502,27 @@ def pendPd : Pc → Bool
   | .x11 | .x12 => true
   | _ => false
 
+@[simp] theorem pendP_rfExit (th : Th) (n : Nat) (e : Err) : pendP (rfExit th n e).pc = false :=
+  (obs_helpers (fun pc => pendP pc) false (rfl) (rfl) (fun _ => rfl) (fun _ _ => rfl) { k := 0, src := fun _ => 0 } th).1 n e
+@[simp] theorem pendP_wfsErr (th : Th) (e : Err) : pendP (wfsErr th e).pc = false :=
+  (obs_helpers (fun pc => pendP pc) false (rfl) (rfl) (fun _ => rfl) (fun _ _ => rfl) { k := 0, src := fun _ => 0 } th).2.1 e
+@[simp] theorem pendP_enterWfs (cfg : Cfg) (th : Th) (n : Nat) : pendP (enterWfs cfg th n).pc = false :=
+  (obs_helpers (fun pc => pendP pc) false (rfl) (rfl) (fun _ => rfl) (fun _ _ => rfl) cfg th).2.2.1 n
+@[simp] theorem pendP_wcRet (th : Th) (n : Nat) : pendP (wcRet th n).pc = false :=
+  (obs_helpers (fun pc => pendP pc) false (rfl) (rfl) (fun _ => rfl) (fun _ _ => rfl) { k := 0, src := fun _ => 0 } th).2.2.2.1 n
+@[simp] theorem pendP_closeRet (th : Th) : pendP (closeRet th).pc = false :=
+  (obs_helpers (fun pc => pendP pc) false (rfl) (rfl) (fun _ => rfl) (fun _ _ => rfl) { k := 0, src := fun _ => 0 } th).2.2.2.2
+@[simp] theorem pendPd_rfExit (th : Th) (n : Nat) (e : Err) : pendPd (rfExit th n e).pc = false :=
+  (obs_helpers (fun pc => pendPd pc) false (rfl) (rfl) (fun _ => rfl) (fun _ _ => rfl) { k := 0, src := fun _ => 0 } th).1 n e
+@[simp] theorem pendPd_wfsErr (th : Th) (e : Err) : pendPd (wfsErr th e).pc = false :=
+  (obs_helpers (fun pc => pendPd pc) false (rfl) (rfl) (fun _ => rfl) (fun _ _ => rfl) { k := 0, src := fun _ => 0 } th).2.1 e
+@[simp] theorem pendPd_enterWfs (cfg : Cfg) (th : Th) (n : Nat) : pendPd (enterWfs cfg th n).pc = false :=
+  (obs_helpers (fun pc => pendPd pc) false (rfl) (rfl) (fun _ => rfl) (fun _ _ => rfl) cfg th).2.2.1 n
+@[simp] theorem pendPd_wcRet (th : Th) (n : Nat) : pendPd (wcRet th n).pc = false :=
+  (obs_helpers (fun pc => pendPd pc) false (rfl) (rfl) (fun _ => rfl) (fun _ _ => rfl) { k := 0, src := fun _ => 0 } th).2.2.2.1 n
+@[simp] theorem pendPd_closeRet (th : Th) : pendPd (closeRet th).pc = false :=
+  (obs_helpers (fun pc => pendPd pc) false (rfl) (rfl) (fun _ => rfl) (fun _ _ => rfl) { k := 0, src := fun _ => 0 } th).2.2.2.2
+
 def pStage : Pc → Nat
   | .s34 _ _ => 1
   | .s36 _ _ | .s36w _ _ => 2
@@ -446,6 +530,27 @@ def pStage : Pc → Nat
 def pParked : Pc → Bool
   | .s36w _ _ => true
   | _ => false
+
+@[simp] theorem pStage_rfExit (th : Th) (n : Nat) (e : Err) : pStage (rfExit th n e).pc = 0 :=
+  (obs_helpers (fun pc => pStage pc) 0 (rfl) (rfl) (fun _ => rfl) (fun _ _ => rfl) { k := 0, src := fun _ => 0 } th).1 n e
+@[simp] theorem pStage_wfsErr (th : Th) (e : Err) : pStage (wfsErr th e).pc = 0 :=
+  (obs_helpers (fun pc => pStage pc) 0 (rfl) (rfl) (fun _ => rfl) (fun _ _ => rfl) { k := 0, src := fun _ => 0 } th).2.1 e
+@[simp] theorem pStage_enterWfs (cfg : Cfg) (th : Th) (n : Nat) : pStage (enterWfs cfg th n).pc = 0 :=
+  (obs_helpers (fun pc => pStage pc) 0 (rfl) (rfl) (fun _ => rfl) (fun _ _ => rfl) cfg th).2.2.1 n
+@[simp] theorem pStage_wcRet (th : Th) (n : Nat) : pStage (wcRet th n).pc = 0 :=
+  (obs_helpers (fun pc => pStage pc) 0 (rfl) (rfl) (fun _ => rfl) (fun _ _ => rfl) { k := 0, src := fun _ => 0 } th).2.2.2.1 n
+@[simp] theorem pStage_closeRet (th : Th) : pStage (closeRet th).pc = 0 :=
+  (obs_helpers (fun pc => pStage pc) 0 (rfl) (rfl) (fun _ => rfl) (fun _ _ => rfl) { k := 0, src := fun _ => 0 } th).2.2.2.2
+@[simp] theorem pParked_rfExit (th : Th) (n : Nat) (e : Err) : pParked (rfExit th n e).pc = false :=
+  (obs_helpers (fun pc => pParked pc) false (rfl) (rfl) (fun _ => rfl) (fun _ _ => rfl) { k := 0, src := fun _ => 0 } th).1 n e
+@[simp] theorem pParked_wfsErr (th : Th) (e : Err) : pParked (wfsErr th e).pc = false :=
+  (obs_helpers (fun pc => pParked pc) false (rfl) (rfl) (fun _ => rfl) (fun _ _ => rfl) { k := 0, src := fun _ => 0 } th).2.1 e
+@[simp] theorem pParked_enterWfs (cfg : Cfg) (th : Th) (n : Nat) : pParked (enterWfs cfg th n).pc = false :=
+  (obs_helpers (fun pc => pParked pc) false (rfl) (rfl) (fun _ => rfl) (fun _ _ => rfl) cfg th).2.2.1 n
+@[simp] theorem pParked_wcRet (th : Th) (n : Nat) : pParked (wcRet th n).pc = false :=
+  (obs_helpers (fun pc => pParked pc) false (rfl) (rfl) (fun _ => rfl) (fun _ _ => rfl) { k := 0, src := fun _ => 0 } th).2.2.2.1 n
+@[simp] theorem pParked_closeRet (th : Th) : pParked (closeRet th).pc = false :=
+  (obs_helpers (fun pc => pParked pc) false (rfl) (rfl) (fun _ => rfl) (fun _ _ => rfl) { k := 0, src := fun _ => 0 } th).2.2.2.2
 /-- the wait condition the producer tested, evaluated on the consumer cursor `cseq` -/
 def noSpaceAt (size cseq : Nat) : Pc → Prop
   | .s34 n ppos | .s36 n ppos | .s36w n ppos => ppos + n > cseq + size
@@ -502,8 +607,8 @@ theorem effP_step (cfg : Cfg) (sh sh' : Sh) (me : Tid) (th th' : Th)
   all_goals (
     refine ⟨?_, ?_, ?_, ?_, ?_⟩ <;>
     first
-    | (simp [pendP, pendPd, holds, pcRole, Th.goto, Th.ret, Sh.bcast, Sh.park, wfsErr]; done)
-    | (simp [pendP, pendPd, holds, pcRole, Th.goto, Th.ret, Sh.bcast, Sh.park, wfsErr, Sh.note]; done)
+    | (simp [pendP, pendPd, holds, pcRole, Th.goto, Th.ret, Sh.bcast, Sh.park]; done)
+    | (simp [pendP, pendPd, holds, pcRole, Th.goto, Th.ret, Sh.bcast, Sh.park, Sh.note]; done)
     | (simp only [note_unlock]; simp [Sh.note]; done))
 
 theorem pNeed_other (cfg : Cfg) (sh sh' : Sh) (me : Tid) (th th' : Th) (ppc : Pc) (ec ed : Prop)
@@ -557,9 +662,9 @@ theorem pNeed_other (cfg : Cfg) (sh sh' : Sh) (me : Tid) (th th' : Th) (ppc : Pc
 @[simp] theorem pNote_setNote_p (sh : Sh) (b : Bool) : (sh.setNote .pL b).pNote = b := rfl
 
 theorem pStage_startCall (cfg : Cfg) (th : Th) (call : Call) : pStage (startCall cfg th call).pc = 0 := by
-  cases call <;> simp only [startCall, enterWfs, wfsErr, Th.goto, Th.ret]
+  cases call <;> simp only [startCall]
   all_goals (repeat' split)
-  all_goals rfl
+  all_goals (first | exact pStage_enterWfs _ _ _ | rfl)
 
 theorem pStage_wfsOk (cfg : Cfg) (th : Th) (ppos n : Nat) : pStage (wfsOk cfg th ppos n).pc = 0 := by
   unfold wfsOk; dsimp only
@@ -601,15 +706,20 @@ theorem pNeed_own (cfg : Cfg) (sh sh' : Sh) (me : Tid) (th th' : Th) (ec ed : Pr
     rcases hs with ⟨h1, rfl, rfl⟩ | ⟨h1, rfl, rfl⟩
     all_goals (
       intro h0
-      simp only [enterWfs, wfsErr, Th.goto, Th.ret] at h0
-      repeat' split at h0
-      all_goals (simp [pStage] at h0))
+      first
+      | (rw [pStage_enterWfs] at h0; cases h0)
+      | (simp [pStage, Th.ret] at h0))
   all_goals tstep_norm
   all_goals tstep_elim
   all_goals (clear hcr)
   all_goals (first
     | (intro h0; rw [pStage_wfsOk] at h0; cases h0)
-    | (intro h0; simp [pStage, Th.goto, Th.ret, wfsErr] at h0; done)
+    | (intro h0; rw [pStage_wfsErr] at h0; cases h0)
+    | (intro h0; rw [pStage_enterWfs] at h0; cases h0)
+    | (intro h0; rw [pStage_wcRet] at h0; cases h0)
+    | (intro h0; rw [pStage_closeRet] at h0; cases h0)
+    | (intro h0; rw [pStage_rfExit] at h0; cases h0)
+    | (intro h0; simp [pStage, Th.goto, Th.ret] at h0; done)
     | (unfold pNeed at h ⊢
        simp_all [pStage, pParked, noSpaceAt, Th.goto, Th.ret, Sh.park]))
 
